@@ -20,8 +20,8 @@ RULE = (
     "operations: register a/b with constant / Option / dataset implementations, re-register, overload(['a','b']), "
     "stacked overload, set_dispatch(Option('D','a')), evaluate over D in {absent,a,b,zz} x X in {1,2}; BFS with "
     "state dedup to depth 4 quick / 5 thorough; interfaces: all shapes with <=3 members over 6 member kinds x all "
-    "override subsets (+ unknown member) x 4 override forms rotated x alias forms, single and two-interface "
-    "implementations.  Non-trivial = evaluations after at least one registration / accepted or rejected implementations."
+    "override subsets (+ unknown member) x 4 override forms rotated x alias forms; two-interface implementations: all pairs of shapes with <=2 members x all "
+    "override subsets.  Non-trivial = evaluations after at least one registration / accepted or rejected implementations."
 )
 ASSUMPTIONS = [
     "an evaluation may return the value stored by an earlier successful evaluation of the same dispatch value and (if the stored implementation reads it) the same payload: the property exempts 'already stored'",
@@ -377,39 +377,52 @@ def check_interface(shape, res):
     return fails
 
 
-def check_multi(res):
-    """One implementation class for two interfaces sharing member names."""
+def check_multi(res, shapes_a=None):
+    """One implementation class for two interfaces that share member names: every pair of interface
+    shapes with <= 2 members x every override subset.  Accepted iff every member that is abstract in
+    EITHER interface is overridden; a rejected definition registers nothing in either interface."""
     fails = []
-    for s1, s2 in [(("abs", "ds"), ("ann", "const")), (("ann",), ("abs", "fn")), (("abs", "abs"), ("abs",))]:
-        for subset_ok in (True, False):
-            i1, d1 = build_interface(s1, "I1")
-            i2, d2 = build_interface(s2, "I2")
-            names = sorted({f"m{i}" for i in range(max(len(s1), len(s2)))})
+    shapes = []
+    for n in (1, 2):
+        shapes.extend(itertools.product(KINDS, repeat=n))
+    for s1 in (shapes_a or shapes):
+        for s2 in shapes:
+            names = [f"m{i}" for i in range(max(len(s1), len(s2)))]
             need = {f"m{i}" for i, k in enumerate(s1) if k in ("ann", "abs")} | {f"m{i}" for i, k in enumerate(s2) if k in ("ann", "abs")}
-            over = set(need) if subset_ok else set(list(need)[:-1])
-            before = (tables(i1), tables(i2))
-            res["evaluations"] += 1
-            try:
-                impl, expect = build_impl((i1, i2), {m: "function" for m in over}, ["p", "q"], "M")
-                ok = True
-            except TypeError:
-                ok = False
-            if ok != subset_ok:
-                fails.append({"sig": f"C07|multi|acceptance|{s1}|{s2}|{subset_ok}", "what": f"two-interface implementation of {s1}+{s2} overriding {sorted(over)}: accepted={ok}", "detail": "", "case": ("multi",)})
-                continue
-            if not ok:
-                after = (tables(i1), tables(i2))
-                if [{k: set(v) for k, v in t.items()} for t in after] != [{k: set(v) for k, v in t.items()} for t in before]:
-                    fails.append({"sig": f"C07|multi|partial-registration|{s1}|{s2}", "what": f"rejected two-interface implementation of {s1}+{s2} registered something", "detail": repr(after), "case": ("multi",)})
-                continue
-            for iface, shape, dflt in ((i1, s1, d1), (i2, s2, d2)):
-                for i in range(len(shape)):
-                    m = f"m{i}"
-                    for al in ("p", "q"):
-                        got = observe(None, lambda: getattr(iface, m).evaluate({"IMPL": al}))
-                        want = expect.get(m, dflt.get(m))
-                        if not got.ok or freeze(got.value) != freeze(want):
-                            fails.append({"sig": f"C07|multi|resolve|{s1}|{s2}|{m}|{al}", "what": f"{iface.__name__}.{m} under IMPL={al}: {got!r} expected {want!r}", "detail": "", "case": ("multi",)})
+            for r in range(0, len(names) + 1):
+                for over in itertools.combinations(names, r):
+                    i1, d1 = build_interface(s1, "I1")
+                    i2, d2 = build_interface(s2, "I2")
+                    before = (tables(i1), tables(i2))
+                    res["evaluations"] += 1
+                    res["nontrivial"] += 1
+                    should = need <= set(over)
+                    try:
+                        impl, expect = build_impl((i1, i2), {m: "function" for m in over}, ["p", "q"], "M")
+                        ok = True
+                    except TypeError:
+                        ok = False
+                    tag = f"{s1}|{s2}|{over}"
+                    if ok != should:
+                        if not any(f["sig"].startswith("C07|multi|acceptance") for f in fails):
+                            fails.append({"sig": f"C07|multi|acceptance|{tag}", "what": f"two-interface implementation of {s1}+{s2} overriding {sorted(over)}: accepted={ok}, abstract members {sorted(need)}",
+                                          "detail": "", "case": ("multi1", list(s1))})
+                        continue
+                    if not ok:
+                        after = (tables(i1), tables(i2))
+                        if [{k: set(v) for k, v in t.items()} for t in after] != [{k: set(v) for k, v in t.items()} for t in before]:
+                            if not any(f["sig"].startswith("C07|multi|partial") for f in fails):
+                                fails.append({"sig": f"C07|multi|partial-registration|{tag}", "what": f"rejected two-interface implementation of {s1}+{s2} registered something", "detail": repr(after), "case": ("multi1", list(s1))})
+                        continue
+                    for iface, shape, dflt in ((i1, s1, d1), (i2, s2, d2)):
+                        for i in range(len(shape)):
+                            m = f"m{i}"
+                            for al in ("p", "q"):
+                                got = observe(None, lambda: getattr(iface, m).evaluate({"IMPL": al}))
+                                want = expect.get(m, dflt.get(m))
+                                if not got.ok or freeze(got.value) != freeze(want):
+                                    if not any(f["sig"].startswith("C07|multi|resolve") for f in fails):
+                                        fails.append({"sig": f"C07|multi|resolve|{tag}|{m}|{al}", "what": f"{iface.__name__}.{m} under IMPL={al}: {got!r} expected {want!r} ({s1}+{s2} overriding {sorted(over)})", "detail": "", "case": ("multi1", list(s1))})
     return fails
 
 
@@ -459,7 +472,11 @@ def cases(tier, seed):
         shapes.extend(itertools.product(KINDS, repeat=n))
     for a in range(0, len(shapes), 12):
         out.append(("ifaces", a, min(len(shapes), a + 12)))
-    out.append(("multi",))
+    mshapes = []
+    for n in (1, 2):
+        mshapes.extend(itertools.product(KINDS, repeat=n))
+    for a in range(0, len(mshapes), 3):
+        out.append(("multi", [list(x) for x in mshapes[a : a + 3]]))
     out.append(("dependent",))
     return out
 
@@ -527,7 +544,11 @@ def run_case(case):
         res["states"] = 1
         return res
     if case[0] == "multi":
-        res["failures"] = check_multi(res)
+        res["failures"] = check_multi(res, [tuple(x) for x in case[1]])
+        res["states"] = 1
+        return res
+    if case[0] == "multi1":
+        res["failures"] = check_multi(res, [tuple(case[1])])
         res["states"] = 1
         return res
     if case[0] == "dependent":
